@@ -296,10 +296,10 @@ Proof.
 Qed.
 
 Lemma pa_plain_spec : forall m ck a, wt_arr a -> (forall k, m = IConst k -> const_ok (a_ty a) (mk_py ck k) = true) ->
-  kf_pa_string_stat m a = false ->
+  string_stat m (a_ty a) = false ->
   exists r, pa_plain K m ck a = Some r /\ a_cells r = impute_spec m (a_cells a).
 Proof.
-  intros m ck a WT HC KF. unfold kf_pa_string_stat in KF. destruct m as [| | |k| |]; cbn [pa_plain impute_spec is_stat] in *.
+  intros m ck a WT HC KF. unfold string_stat in KF. destruct m as [| | |k| |]; cbn [pa_plain impute_spec is_stat] in *.
   - rewrite andb_true_r in KF. apply negb_false_iff in KF. rewrite KF. eexists. split. reflexivity.
     rewrite (c_mean K HK). apply pa_fill_null_w_float. exact KF.
   - rewrite andb_true_r in KF. apply negb_false_iff in KF. rewrite KF. eexists. split. reflexivity.
@@ -387,10 +387,10 @@ Proof.
 Qed.
 
 Lemma pa_grouped_spec : forall m ck a, a_cells a = c -> wt_arr a ->
-  (forall k, m = IConst k -> const_ok (a_ty a) (mk_py ck k) = true) -> kf_pa_string_stat m a = false ->
+  (forall k, m = IConst k -> const_ok (a_ty a) (mk_py ck k) = true) -> string_stat m (a_ty a) = false ->
   exists r, pa_grouped K m ck gcols a = Some r /\ a_cells r = impute_grouped_spec m keys c.
 Proof.
-  intros m ck a EA WT HC KF. unfold kf_pa_string_stat in KF.
+  intros m ck a EA WT HC KF. unfold string_stat in KF.
   destruct m as [| | |k| |]; cbn [pa_grouped pa_overall impute_grouped_spec is_stat] in *.
   - rewrite andb_true_r in KF. apply negb_false_iff in KF. rewrite KF. eexists. split. reflexivity.
     rewrite (c_array K HK), EA, (c_mean K HK). apply pa_grouped_loop_stat. intros. cbn [pa_group_value]. apply (c_mean K HK).
@@ -410,25 +410,36 @@ End Grouped.
 
 (* ---------------------------------------------------------------------------------------------------------- *)
 (* _perform_imputation                                                                                        *)
-Lemma pa_early_return_iff : forall c, pa_early_return c = true <-> c = [].
+(* `null_count == 0` says: no cell is null *)
+Lemma null_count_zero : forall c, Nat.eqb (null_count c) 0 = negb (has_null c).
 Proof.
-  intros c. unfold pa_early_return. rewrite map_length, Nat.eqb_eq. apply length_zero_iff_nil.
+  induction c as [|[x|] t IH]; unfold null_count, has_null in *; cbn [filter existsb is_none List.length orb]; auto.
+Qed.
+Lemma pa_early_return_iff : forall c, pa_early_return c = true <-> has_null c = false.
+Proof. intros c. unfold pa_early_return. rewrite null_count_zero. apply negb_true_iff. Qed.
+Lemma pa_early_return_false : forall c, pa_early_return c = false -> has_null c = true.
+Proof. intros c H. destruct (has_null c) eqn:E; auto. apply pa_early_return_iff in E. congruence. Qed.
+
+(* the test BEFORE 505d3c3 (regression witness): it compared the length of the column with 0 *)
+Lemma pa_early_return_old_iff : forall c, pa_early_return_old c = true <-> c = [].
+Proof.
+  intros c. unfold pa_early_return_old. rewrite map_length, Nat.eqb_eq. apply length_zero_iff_nil.
 Qed.
 
-Lemma impute_spec_nil : forall m, impute_spec m [] = [].
-Proof. intros [| | |k| |]; reflexivity. Qed.
-Lemma impute_grouped_spec_nil : forall m keys, impute_grouped_spec m keys [] = [].
+(* outside the domain, on the fall-through path (the column holds a null), the statistic is taken of a numeric column *)
+Lemma kf_fall_through : forall m a, kf_pa_string_stat m a = false -> pa_early_return (a_cells a) = false ->
+  string_stat m (a_ty a) = false.
 Proof.
-  intros [| | |k| |] keys; cbn [impute_grouped_spec]; try reflexivity; unfold fill_stat; destruct keys; reflexivity.
+  intros m a KF E. apply pa_early_return_false in E. unfold kf_pa_string_stat in KF. rewrite E, andb_true_r in KF. exact KF.
 Qed.
 
 Lemma pa_perform_plain : forall m ck g a, (g = None \/ g = Some []) -> wt_arr a ->
   (forall k, m = IConst k -> const_ok (a_ty a) (mk_py ck k) = true) -> kf_pa_string_stat m a = false ->
   exists r, pa_perform K m ck g a = Some r /\ a_cells r = impute_spec m (a_cells a).
 Proof.
-  intros m ck g a Hg WT HC KF. unfold pa_perform. destruct (pa_early_return (a_cells a)) eqn:E.
-  - apply pa_early_return_iff in E. exists a. split. reflexivity. rewrite E. symmetry. apply impute_spec_nil.
-  - destruct Hg as [-> | ->]; apply pa_plain_spec; auto.
+  intros m ck g a Hg WT HC KF. unfold pa_perform, pa_perform_with. destruct (pa_early_return (a_cells a)) eqn:E.
+  - apply pa_early_return_iff in E. exists a. split. reflexivity. symmetry. apply impute_spec_no_null_id. exact E.
+  - pose proof (kf_fall_through m a KF E) as SS. destruct Hg as [-> | ->]; apply pa_plain_spec; auto.
 Qed.
 
 Lemma pa_perform_grouped : forall m ck gcols a, gcols <> [] ->
@@ -437,9 +448,10 @@ Lemma pa_perform_grouped : forall m ck gcols a, gcols <> [] ->
   exists r, pa_perform K m ck (Some gcols) a = Some r /\
             a_cells r = impute_grouped_spec m (rows_of gcols (List.length (a_cells a))) (a_cells a).
 Proof.
-  intros m ck gcols a NE FL WT HC KF. unfold pa_perform. destruct (pa_early_return (a_cells a)) eqn:E.
-  - apply pa_early_return_iff in E. exists a. split. reflexivity. rewrite E. symmetry. apply impute_grouped_spec_nil.
-  - destruct gcols as [|g gs]. contradiction. apply pa_grouped_spec; auto.
+  intros m ck gcols a NE FL WT HC KF. unfold pa_perform, pa_perform_with. destruct (pa_early_return (a_cells a)) eqn:E.
+  - apply pa_early_return_iff in E. exists a. split. reflexivity. symmetry. apply preserves_no_null_id. exact E.
+    apply impute_grouped_spec_preserves. apply rows_of_length.
+  - pose proof (kf_fall_through m a KF E) as SS. destruct gcols as [|g gs]. contradiction. apply pa_grouped_spec; auto.
 Qed.
 End Arrow.
 
@@ -461,15 +473,58 @@ Proof.
   exists r. split. exact E1. rewrite pydict_perform_grouped_refines_l by apply rows_of_length. exact E2.
 Qed.
 
-(* inside the domain kf_pa_string_stat: a string column WITHOUT a null.  The spec and the PythonDict (and pandas)
-   implementations return the column, the PyArrow glue raises -- because its early return only fires on an empty column *)
+(* inside the domain kf_pa_string_stat: mean / median of a string column WITH a null -- the PyArrow glue raises (pc.mean /
+   pc.quantile have no kernel for strings), the untyped spec and the untyped PythonDict model denote a value:
+   ['a', null, 'a', 'b'] (median 'a'), also grouped, and the all-null string column (no value: the column itself) *)
 Lemma pa_string_stat_refuted :
+  let a := mk_arr TStr [Some 1; None; Some 1; Some 2] in
+  let z := mk_arr TStr [None; None] in
+  let g := Some [[Some 1%Z; Some 1%Z; Some 1%Z; Some 2%Z]] in
+  kf_pa_string_stat IMedian a = true /\ pa_perform ref_kernels IMedian KStr None a = None /\
+  pa_perform ref_kernels IMean KStr g a = None /\
+  impute_spec IMedian (a_cells a) = [Some 1; Some 1; Some 1; Some 2] /\
+  py_perform_imputation IMedian None (a_cells a) = [Some 1; Some 1; Some 1; Some 2] /\
+  kf_pa_string_stat IMean z = true /\ pa_perform ref_kernels IMean KStr None z = None /\
+  impute_spec IMean (a_cells z) = a_cells z /\ py_perform_imputation IMean None (a_cells z) = a_cells z.
+Proof. vm_compute. repeat split. Qed.
+
+(* REPAIRED finding C19-pyarrow-early-return-never-fires (505d3c3), behaviour BEFORE the fix: a string column WITHOUT a
+   null -- the spec and the PythonDict (and pandas) implementations return the column, the old text raised because its
+   early return only fired on an empty column.  The present model returns the column; the input is outside the present
+   domain. *)
+Lemma pa_string_stat_old_refuted :
   let a := mk_arr TStr [Some 2; Some 1; Some 3] in
-  kf_pa_string_stat IMean a = true /\ pa_perform ref_kernels IMean KStr None a = None /\
-  pa_perform ref_kernels IMedian KStr (Some [[Some 1%Z; Some 1%Z; Some 2%Z]]) a = None /\
+  let g := Some [[Some 1%Z; Some 1%Z; Some 2%Z]] in
+  has_null (a_cells a) = false /\
+  pa_perform_old ref_kernels IMean KStr None a = None /\ pa_perform_old ref_kernels IMedian KStr g a = None /\
   impute_spec IMean (a_cells a) = a_cells a /\ py_perform_imputation IMean None (a_cells a) = a_cells a /\
-  has_null (a_cells a) = false.
+  pa_perform ref_kernels IMean KStr None a = Some a /\ pa_perform ref_kernels IMedian KStr g a = Some a /\
+  kf_pa_string_stat IMean a = false.
 Proof. repeat split. Qed.
+
+Lemma kf_pa_string_stat_iff : forall m a,
+  kf_pa_string_stat m a = true <-> (a_ty a = TStr /\ (m = IMean \/ m = IMedian) /\ has_null (a_cells a) = true).
+Proof.
+  intros m a. unfold kf_pa_string_stat, string_stat. split.
+  - intros H. apply andb_true_iff in H. destruct H as [H1 H3]. apply andb_true_iff in H1. destruct H1 as [H1 H2].
+    split; [|split]; auto. destruct (a_ty a); try discriminate; reflexivity.
+    destruct m; try discriminate; auto.
+  - intros [-> [[-> | ->] ->]]; reflexivity.
+Qed.
+
+(* on numeric columns the two texts compute the same cells (the old one fell through; an int64 column came back as double) *)
+Lemma pa_perform_old_numeric_same_cells : forall K, pa_contracts K -> forall m ck a, numeric (a_ty a) = true -> wt_arr a ->
+  (forall k, m = IConst k -> const_ok (a_ty a) (mk_py ck k) = true) ->
+  exists r r', pa_perform K m ck None a = Some r /\ pa_perform_old K m ck None a = Some r' /\ a_cells r = a_cells r'.
+Proof.
+  intros K HK m ck a N WT HC.
+  assert (SS : string_stat m (a_ty a) = false) by (unfold string_stat; rewrite N; reflexivity).
+  assert (KF : kf_pa_string_stat m a = false) by (unfold kf_pa_string_stat; rewrite SS; reflexivity).
+  destruct (pa_perform_plain K HK m ck None a (or_introl eq_refl) WT HC KF) as [r [E1 E2]].
+  exists r. unfold pa_perform_old, pa_perform_with. destruct (pa_early_return_old (a_cells a)) eqn:E.
+  - exists a. repeat split; auto. rewrite E2. apply pa_early_return_old_iff in E. rewrite E. destruct m; reflexivity.
+  - destruct (pa_plain_spec K HK m ck a WT HC SS) as [r' [E3 E4]]. exists r'. repeat split; auto. congruence.
+Qed.
 
 (* row keys <-> group-by columns: the transposition used by the tie *)
 Lemma rows_of_transpose : forall keys w, (forall k, In k keys -> List.length k = w) -> keys <> [] ->
